@@ -21,6 +21,8 @@ fn viol(kind: &str, d: String) {
 #[derive(Clone, Copy, Debug, PartialEq, Eq)]
 pub enum Which {
     VsockRx,
+    /// The socket driver instantiated with 2048-byte receive buffers.
+    VsockRxLarge,
     Input,
     Sound,
 }
@@ -29,26 +31,27 @@ impl Which {
     pub fn name(self) -> &'static str {
         match self {
             Which::VsockRx => "vsock-rx",
+            Which::VsockRxLarge => "vsock-rx-2048",
             Which::Input => "input",
             Which::Sound => "sound-events",
         }
     }
     fn kind(self) -> Kind {
         match self {
-            Which::VsockRx => Kind::Socket,
+            Which::VsockRx | Which::VsockRxLarge => Kind::Socket,
             Which::Input => Kind::Input,
             Which::Sound => Kind::Sound,
         }
     }
     fn queue(self) -> u16 {
         match self {
-            Which::VsockRx | Which::Input => 0,
+            Which::VsockRx | Which::VsockRxLarge | Which::Input => 0,
             Which::Sound => 1,
         }
     }
     fn qsize(self) -> usize {
         match self {
-            Which::VsockRx => 8,
+            Which::VsockRx | Which::VsockRxLarge => 8,
             _ => 32,
         }
     }
@@ -102,8 +105,10 @@ struct Ev {
 
 fn event_bytes(which: Which, seq: u32, lenc: usize) -> Vec<u8> {
     match which {
-        Which::VsockRx => {
-            let plen = [VSOCK_RX - HDR_LEN, 0, 1][lenc];
+        Which::VsockRx | Which::VsockRxLarge => {
+            // Full buffer, empty body, one byte; for the large buffers the lengths around the
+            // default buffer size too.
+            let plen = if which == Which::VsockRxLarge { [VSOCK_RX_LARGE - HDR_LEN, 0, 469][lenc] } else { [VSOCK_RX - HDR_LEN, 0, 1][lenc] };
             let h = Hdr { src_cid: 2, dst_cid: 3, src_port: 80 + seq, dst_port: 1000 + seq, len: plen as u32, typ: 1, op: OP_RW, flags: 0, buf_alloc: 64 + seq, fwd_cnt: seq };
             let mut b = h.encode();
             b.extend((0..plen).map(|i| (seq as u8).wrapping_mul(17).wrapping_add(i as u8)));
@@ -125,10 +130,37 @@ fn event_bytes(which: Which, seq: u32, lenc: usize) -> Vec<u8> {
     }
 }
 
+pub const VSOCK_RX_LARGE: usize = 2048;
+
 enum Drv<T: Transport> {
     Vsock(VirtIOSocket<LabHal, T, VSOCK_RX>),
+    VsockLarge(VirtIOSocket<LabHal, T, VSOCK_RX_LARGE>),
     Input(VirtIOInput<LabHal, T>),
     Sound(VirtIOSound<LabHal, T>),
+}
+
+/// One poll of the socket driver; the event is re-encoded from what the driver decoded.
+fn poll_vsock<T: Transport, const RX: usize>(s: &mut VirtIOSocket<LabHal, T, RX>) -> Result<Option<Vec<u8>>, String> {
+    let mut seen: Option<Vec<u8>> = None;
+    let r = crate::util::catch(|| {
+        s.poll(|ev, body| {
+            let len = match ev.event_type {
+                VsockEventType::Received { length } => length,
+                _ => usize::MAX,
+            };
+            let h = Hdr { src_cid: ev.source.cid, dst_cid: ev.destination.cid, src_port: ev.source.port, dst_port: ev.destination.port, len: len as u32, typ: 1, op: OP_RW, flags: 0, buf_alloc: ev.buffer_status.buffer_allocation, fwd_cnt: ev.buffer_status.forward_count };
+            let mut b = h.encode();
+            b.extend_from_slice(body);
+            seen = Some(b);
+            Ok(Some(ev))
+        })
+    });
+    match r {
+        Ok(Ok(Some(_))) => Ok(seen),
+        Ok(Ok(None)) => Ok(None),
+        Ok(Err(e)) => Err(format!("{:?}", e)),
+        Err(p) => Err(p),
+    }
 }
 
 impl TransportVisitor for V {
@@ -144,6 +176,7 @@ impl TransportVisitor for V {
         cosim::install(&co);
         let r = crate::util::catch(|| match which {
             Which::VsockRx => VirtIOSocket::<LabHal, T, VSOCK_RX>::new(t).map(Drv::Vsock),
+            Which::VsockRxLarge => VirtIOSocket::<LabHal, T, VSOCK_RX_LARGE>::new(t).map(Drv::VsockLarge),
             Which::Input => VirtIOInput::<LabHal, T>::new(t).map(Drv::Input),
             Which::Sound => VirtIOSound::<LabHal, T>::new(t).map(Drv::Sound),
         });
@@ -182,20 +215,21 @@ impl TransportVisitor for V {
                 }
                 let j = decide(linear, posted, "which posted buffer the device uses (default: oldest)");
                 let lenc = match which {
-                    Which::VsockRx => decide(linear, 5, "written length (default: full)"),
+                    Which::VsockRx | Which::VsockRxLarge => decide(linear, 5, "written length (default: full)"),
                     Which::Sound => decide(linear, 3, "written length (default: full)"),
                     Which::Input => 0,
                 };
                 seq += 1;
-                let mut bytes = event_bytes(which, seq, if which == Which::VsockRx { lenc.min(2) } else { 0 });
+                let is_vsock = matches!(which, Which::VsockRx | Which::VsockRxLarge);
+                let mut bytes = event_bytes(which, seq, if is_vsock { lenc.min(2) } else { 0 });
                 // Writes shorter than one message: the event cannot be decoded, but the buffer must
                 // still come back.
                 let undecodable = match (which, lenc) {
-                    (Which::VsockRx, 3) => {
+                    (Which::VsockRx | Which::VsockRxLarge, 3) => {
                         bytes.truncate(0);
                         true
                     }
-                    (Which::VsockRx, 4) => {
+                    (Which::VsockRx | Which::VsockRxLarge, 4) => {
                         bytes.truncate(7);
                         true
                     }
@@ -223,29 +257,8 @@ impl TransportVisitor for V {
             for _ in 0..polls {
                 let expect = pending.pop_front();
                 let got: Result<Option<Vec<u8>>, String> = match &mut d {
-                    Drv::Vsock(s) => {
-                        let mut seen: Option<Vec<u8>> = None;
-                        let r = crate::util::catch(|| {
-                            s.poll(|ev, body| {
-                                // Re-encode what the driver decoded: header fields and body.
-                                let len = match ev.event_type {
-                                    VsockEventType::Received { length } => length,
-                                    _ => usize::MAX,
-                                };
-                                let h = Hdr { src_cid: ev.source.cid, dst_cid: ev.destination.cid, src_port: ev.source.port, dst_port: ev.destination.port, len: len as u32, typ: 1, op: OP_RW, flags: 0, buf_alloc: ev.buffer_status.buffer_allocation, fwd_cnt: ev.buffer_status.forward_count };
-                                let mut b = h.encode();
-                                b.extend_from_slice(body);
-                                seen = Some(b);
-                                Ok(Some(ev))
-                            })
-                        });
-                        match r {
-                            Ok(Ok(Some(_))) => Ok(seen),
-                            Ok(Ok(None)) => Ok(None),
-                            Ok(Err(e)) => Err(format!("{:?}", e)),
-                            Err(p) => Err(p),
-                        }
-                    }
+                    Drv::Vsock(s) => poll_vsock(s),
+                    Drv::VsockLarge(s) => poll_vsock(s),
                     Drv::Input(i) => match crate::util::catch(|| i.pop_pending_event()) {
                         Ok(Some(e)) => {
                             let mut b = e.event_type.to_le_bytes().to_vec();
@@ -275,7 +288,7 @@ impl TransportVisitor for V {
                 };
                 tag(if expect.is_some() { "poll:event" } else { "poll:empty" });
                 match (&got, &expect) {
-                    (Err(_), Some(e)) if e.undecodable && which == Which::VsockRx => {}
+                    (Err(_), Some(e)) if e.undecodable && matches!(which, Which::VsockRx | Which::VsockRxLarge) => {}
                     (Ok(None), Some(e)) if e.undecodable && which == Which::Sound => {}
                     (Ok(Some(b)), Some(e)) if *b == e.bytes && !e.undecodable => {}
                     (Ok(None), None) => {}
@@ -324,6 +337,7 @@ impl TransportVisitor for V {
         }
         match d {
             Drv::Vsock(s) => drop(s),
+            Drv::VsockLarge(s) => drop(s),
             Drv::Input(i) => drop(i),
             Drv::Sound(s) => drop(s),
         }
